@@ -152,7 +152,7 @@ pub fn dump_rel(i: usize, mut rows: Vec<String>) -> String {
    out
 }
 
-pub trait Driver: Send {
+pub trait Driver {
    fn load(&mut self, rel: usize, rows: &[Sexp], append: bool) -> Option<()>;
    fn run(&mut self);
    /// run with the virtual deadline firing at the k-th clock reading; None if the program has no run_timeout
@@ -162,7 +162,14 @@ pub trait Driver: Send {
    /// run() inside a freshly built rayon pool of `n` threads (whatever pool the instance was constructed in)
    fn run_in(&mut self, n: usize) {
       let pool = ascent::rayon::ThreadPoolBuilder::new().num_threads(n).build().unwrap();
-      pool.install(|| self.run_here());
+      // the instance is used by exactly one pool thread for the duration of the call
+      struct Whole<T: ?Sized>(*mut T);
+      unsafe impl<T: ?Sized> Send for Whole<T> {}
+      let w = Whole(self as *mut Self);
+      pool.install(move || {
+         let w = w;
+         unsafe { (*w.0).run_here() }
+      });
    }
    /// run() in the rayon context current at the call
    fn run_here(&mut self);
@@ -240,14 +247,19 @@ pub fn main_loop(progs: &[(&str, Factory)]) {
                   taken.push((n, d));
                }
                let barrier = std::sync::Barrier::new(taken.len());
+               // each instance is handed as a whole to exactly one thread for the duration of its run()
+               struct Whole<'a>(&'a mut Box<dyn Driver>);
+               unsafe impl Send for Whole<'_> {}
                let results: Vec<bool> = std::thread::scope(|s| {
                   let hs: Vec<_> = taken
                      .iter_mut()
                      .map(|(_, d)| {
                         let barrier = &barrier;
+                        let w = Whole(d);
                         s.spawn(move || {
+                           let w = w;
                            barrier.wait();
-                           std::panic::catch_unwind(std::panic::AssertUnwindSafe(|| d.run())).is_ok()
+                           std::panic::catch_unwind(std::panic::AssertUnwindSafe(|| w.0.run())).is_ok()
                         })
                      })
                      .collect();
